@@ -124,6 +124,25 @@ pub fn pp_of(uri: &str) -> Option<(String, String)> {
     Some((ca.to_string(), rcn.to_string()))
 }
 
+/// A stable key for an RP issue: object kind and reason without URIs and
+/// identifiers, plus the history feature that explains a known finding.
+pub fn rp_issue_key(sim: &Sim, issue: &str) -> String {
+    let mut words = issue.split_whitespace();
+    let kind = words.next().unwrap_or("");
+    let uri = issue.split_whitespace().find(|w| w.starts_with("rsync://")).unwrap_or("");
+    let reason = issue.split(" invalid: ").nth(1).or_else(|| issue.split(": ").nth(1)).unwrap_or(issue);
+    let mut key: String = format!("{kind}-{reason}").chars().map(|c| if c.is_ascii_alphanumeric() { c } else { '-' }).collect();
+    key.truncate(70);
+    if reason.contains("overclaiming") {
+        if let Some((ca, _)) = pp_of(uri) {
+            if sim.flags.has(&format!("activated_key_with_other_resources:{ca}")) {
+                key = format!("after-activation-of-key-with-other-resources--{key}");
+            }
+        }
+    }
+    key
+}
+
 /// C01 (1): the RP walk accepts everything served.
 pub fn check_rp_valid(sim: &Sim, snap: &Snap) -> Result<usize, Bad> {
     let mut allowed_unreachable = 0;
@@ -164,8 +183,7 @@ pub fn check_rp_valid(sim: &Sim, snap: &Snap) -> Result<usize, Bad> {
             };
             return Err(bad("rp-no-manifest", key, issue.clone()));
         }
-        let key = issue.split_whitespace().take(2).collect::<Vec<_>>().join("-");
-        return Err(bad("rp-issue", &key, issue.clone()));
+        return Err(bad("rp-issue", &rp_issue_key(sim, issue), issue.clone()));
     }
     Ok(allowed_unreachable)
 }
@@ -244,20 +262,27 @@ fn first_diff<T: Ord + std::fmt::Debug>(a: &BTreeSet<T>, b: &BTreeSet<T>) -> (Ve
 /// certificate.
 pub fn check_payloads(sim: &Sim, snap: &Snap) -> Result<Expected, Bad> {
     let exp = expected_payloads(sim, snap);
+    // history feature that explains a known finding (activation re-issues
+    // existing objects instead of re-deriving them for the new key)
+    let feature = if sim.flags.0.keys().any(|k| k.starts_with("activated_key_with_other_resources:")) {
+        "after-activation-of-key-with-other-resources--"
+    } else {
+        ""
+    };
     if exp.vrps != snap.rp.vrps {
         let (missing, extra) = first_diff(&exp.vrps, &snap.rp.vrps);
-        let key = if !missing.is_empty() { "missing" } else { "extra" };
-        return Err(bad("vrps", key, format!("validated VRPs differ from configuration: missing {missing:?} extra {extra:?}")));
+        let key = format!("{feature}{}", if !missing.is_empty() { "missing" } else { "extra" });
+        return Err(bad("vrps", &key, format!("validated VRPs differ from configuration: missing {missing:?} extra {extra:?}")));
     }
     if exp.aspas != snap.rp.aspas {
         let (missing, extra) = first_diff(&exp.aspas, &snap.rp.aspas);
-        let key = if !missing.is_empty() { "missing" } else { "extra" };
-        return Err(bad("aspas", key, format!("validated ASPAs differ from configuration: missing {missing:?} extra {extra:?}")));
+        let key = format!("{feature}{}", if !missing.is_empty() { "missing" } else { "extra" });
+        return Err(bad("aspas", &key, format!("validated ASPAs differ from configuration: missing {missing:?} extra {extra:?}")));
     }
     if exp.router_keys != snap.rp.router_keys {
         let (missing, extra) = first_diff(&exp.router_keys, &snap.rp.router_keys);
-        let key = if !missing.is_empty() { "missing" } else { "extra" };
-        return Err(bad("router-keys", key, format!("validated router keys differ: missing {missing:?} extra {extra:?}")));
+        let key = format!("{feature}{}", if !missing.is_empty() { "missing" } else { "extra" });
+        return Err(bad("router-keys", &key, format!("validated router keys differ: missing {missing:?} extra {extra:?}")));
     }
     Ok(exp)
 }
@@ -397,4 +422,171 @@ pub fn check_c01(sim: &Sim) -> Result<(Snap, usize), Bad> {
     let exp = check_payloads(sim, &snap)?;
     check_api_views(sim, &snap, &exp)?;
     Ok((snap, unreachable))
+}
+
+//------------ C02 -----------------------------------------------------------
+
+/// key id -> (ca, rcn, resources of the certificate the CA holds for it)
+pub fn held_certs(sim: &Sim, ca: &str) -> Vec<(String, String, ResourceSet, bool)> {
+    let mut res = Vec::new();
+    if let Some(info) = sim.ca_info(ca) {
+        for (rcn, rc) in &info.resource_classes {
+            let cur = rc.keys.current_key().map(|k| k.key_id.to_string());
+            for k in class_keys(&rc.keys) {
+                let is_current = Some(k.key_id.to_string()) == cur;
+                res.push((k.key_id.to_string(), rcn.to_string(), k.incoming_cert.resources.clone(), is_current));
+            }
+        }
+    }
+    res
+}
+
+/// C02 "never over-claims": every CA certificate that `issuer` publishes is
+/// contained in the certificate the issuer holds for the issuing key. To be
+/// called right after a publication (SyncRepo) of the issuer.
+pub fn check_no_overclaim(sim: &Sim, issuer: &str) -> Result<usize, Bad> {
+    if issuer == TA || !sim.model.cas.contains_key(issuer) {
+        return Ok(0);
+    }
+    let Ok(served) = sim.w().served_for(issuer) else { return Ok(0) };
+    let held = held_certs(sim, issuer);
+    let mut n = 0;
+    for (uri, ski, aki, rs) in rp::ca_certs_in(&served) {
+        if ski.is_empty() {
+            return Err(bad("c02-undecodable", "cert", format!("{issuer} publishes an undecodable certificate {uri}")));
+        }
+        let Some((_, _, held_rs, _)) = held.iter().find(|h| h.0 == aki) else {
+            // issued by a key the CA no longer has: withdrawn at the next
+            // publication of that class; not judged here
+            continue;
+        };
+        n += 1;
+        if !held_rs.contains(&rs) {
+            return Err(bad(
+                "c02-overclaim",
+                "published-child-cert",
+                format!("{issuer} publishes {uri} with resources [{rs}] outside the certificate it holds for the issuing key [{held_rs}]"),
+            ));
+        }
+    }
+    Ok(n)
+}
+
+/// C02 exactness + convergence, to be called after `converge`.
+pub fn check_delegation_converged(sim: &Sim) -> Result<usize, Bad> {
+    let mut checked = 0;
+    for (parent, pm) in &sim.model.cas {
+        if pm.publisher_removed {
+            continue;
+        }
+        let served = sim.w().served_for(parent).map_err(|e| bad("served", "error", e))?;
+        let certs = rp::ca_certs_in(&served);
+        let held = held_certs(sim, parent);
+        for (child, cm) in &pm.children {
+            // only children that are local CAs which still have this parent
+            let Some(child_m) = sim.model.cas.get(child) else { continue };
+            if !child_m.parents.contains(parent) || child_m.publisher_removed {
+                continue;
+            }
+            let child_keys = held_certs(sim, child);
+            let Some(child_info) = sim.ca_info(child) else { continue };
+            for (pkey, prcn, pres, pcurrent) in &held {
+                if !pcurrent {
+                    continue;
+                }
+                let expected = cm.entitlement.intersection(pres);
+                // the child's classes under this parent that were issued by this key
+                let issued: Vec<&(String, String, String, ResourceSet)> = certs
+                    .iter()
+                    .filter(|c| &c.2 == pkey && child_keys.iter().any(|k| k.0 == c.1))
+                    .collect();
+                if cm.suspended {
+                    if !issued.is_empty() {
+                        return Err(bad(
+                            "c02-suspended-published",
+                            "cert",
+                            format!("{parent} publishes a certificate for suspended child {child}: {}", issued[0].0),
+                        ));
+                    }
+                    continue;
+                }
+                if expected.is_empty() {
+                    if let Some(c) = issued.first() {
+                        return Err(bad(
+                            "c02-not-entitled",
+                            "cert",
+                            format!("{parent} (class {prcn}) publishes {} for {child} which is entitled to nothing in that class", c.0),
+                        ));
+                    }
+                    continue;
+                }
+                checked += 1;
+                // exactly one certificate for the child's current key, with exactly the expected resources
+                let current: Vec<_> = issued
+                    .iter()
+                    .filter(|c| child_keys.iter().any(|k| k.0 == c.1 && k.3))
+                    .collect();
+                if current.len() != 1 {
+                    return Err(bad(
+                        "c02-convergence",
+                        if current.is_empty() { "no-current-cert" } else { "several-current-certs" },
+                        format!(
+                            "{child} is entitled to [{expected}] under {parent} class {prcn} (issuing key {pkey}) but {} certificates for a current key of {child} are published there after synchronisation (child keys: {:?}; CA certs published by {parent}: {:?})",
+                            current.len(),
+                            child_keys.iter().map(|k| (&k.1, &k.0[..8], k.3)).collect::<Vec<_>>(),
+                            served.keys().map(|u| u.trim_start_matches(rrdpc::RSYNC_BASE).chars().take(24).collect::<String>()).collect::<Vec<_>>()
+                        ),
+                    ));
+                }
+                for c in &issued {
+                    if c.3 != expected {
+                        return Err(bad(
+                            "c02-exactness",
+                            "resources",
+                            format!("{parent} class {prcn} issued {} to {child} with [{}], expected entitlement ∩ issuer = [{expected}]", c.0, c.3),
+                        ));
+                    }
+                }
+                // the child holds exactly that certificate
+                let ck = child_keys.iter().find(|k| k.0 == current[0].1).unwrap();
+                if ck.2 != expected {
+                    return Err(bad(
+                        "c02-child-view",
+                        "resources",
+                        format!("{child} holds [{}] for class {} but the parent {parent} issued [{expected}]", ck.2, ck.1),
+                    ));
+                }
+            }
+            // no open requests
+            if let Ok(ph) = rpki::ca::idexchange::ParentHandle::from_str(parent) {
+                let h = CaHandle::from_str(child).unwrap();
+                if let Ok(ca) = sim.w().cam().get_ca(&h) {
+                    if ca.has_pending_requests(&ph) {
+                        return Err(bad(
+                            "c02-open-requests",
+                            "pending",
+                            format!("{child} still has open requests for parent {parent} after synchronisation"),
+                        ));
+                    }
+                }
+            }
+            let _ = child_info;
+        }
+    }
+    Ok(checked)
+}
+
+/// Digest for the idempotence check: stored command count per CA and the
+/// bytes of every publication point.
+pub fn idem_digest(sim: &Sim) -> Result<(BTreeMap<String, u64>, Served), Bad> {
+    let mut versions = BTreeMap::new();
+    for ca in sim.model.cas.keys() {
+        let h = CaHandle::from_str(ca).unwrap();
+        if let Ok(c) = sim.w().cam().get_ca(&h) {
+            use krill::commons::eventsourcing::Aggregate;
+            versions.insert(ca.clone(), c.version());
+        }
+    }
+    let served = sim.w().served().map_err(|e| bad("served", "error", e))?;
+    Ok((versions, served))
 }
